@@ -376,6 +376,52 @@ theorem termItems_no_clear (o : Print.RealOracle) (fmt : Print.Format) (first : 
     simp only [printCalls, List.map_map, hc, Bool.or_false]
     rfl
 
+/-! ### screens -/
+
+theorem screens_ne_nil (w : List TermItem) : screens w ≠ [] := by
+  induction w with
+  | nil => simp [screens]
+  | cons it rest ih =>
+    cases it with
+    | clear => simp [screens]
+    | line bs =>
+      simp only [screens]
+      cases h : screens rest with
+      | nil => simp
+      | cons s ss => simp
+
+theorem screens_lines (ls : List Print.Bytes) : screens (ls.map TermItem.line) = [ls] := by
+  induction ls with
+  | nil => rfl
+  | cons l rest ih => simp only [List.map_cons, screens, ih]
+
+/-- after a clear followed by lines only, the last screen is those lines -/
+theorem screens_last_after_clear (w₀ : List TermItem) (ls : List Print.Bytes) :
+    (screens (w₀ ++ TermItem.clear :: ls.map TermItem.line)).getLast? = some ls ∧
+    2 ≤ (screens (w₀ ++ TermItem.clear :: ls.map TermItem.line)).length := by
+  induction w₀ with
+  | nil => simp [screens, screens_lines]
+  | cons it rest ih =>
+    obtain ⟨h1, h2⟩ := ih
+    cases it with
+    | clear =>
+      simp only [List.cons_append, screens]
+      refine ⟨?_, by simp; omega⟩
+      cases h : screens (rest ++ TermItem.clear :: ls.map TermItem.line) with
+      | nil => exact absurd h (screens_ne_nil _)
+      | cons s ss => rw [h] at h1; simpa using h1
+    | line bs =>
+      simp only [List.cons_append, screens]
+      cases h : screens (rest ++ TermItem.clear :: ls.map TermItem.line) with
+      | nil => exact absurd h (screens_ne_nil _)
+      | cons s ss =>
+        rw [h] at h1 h2
+        cases ss with
+        | nil => simp at h2
+        | cons s2 ss2 =>
+          simp only
+          refine ⟨?_, by simp⟩
+          simpa using h1
 /-! ### the answer of a run -/
 
 /-- the answer of a follow run that neither skips nor meets a missing REAL rendering -/
